@@ -379,6 +379,96 @@ AREAS["C15"] = {'area': 'c15',
                  'ImportNodes runs alone on the target instance; its points get times later than the stored ones',
                  'nodeID references are node points of type nodeID (edge points of that type are not rewritten by ReplaceIDs and are not generated)']}
 
+AREAS["C17"] = {'area': 'c17',
+ 'id': 17,
+ 'coq': ['Base', 'Serial', 'Properties/C17.v'],
+ 'rule': 'seeded generator, five case kinds: crc (random byte strings of 0-600 bytes through crc16.ChecksumCCITT, first one the KERMIT check '
+         'string); round (1500 x scale packets through client.SerialEncode -> client.SerialDecode -> data.PbDecodeSerialPoints: sequence numbers '
+         'skewed to 0/1/127/128/255, subjects blank/ack/phr/log/p.<id>/p.<id>.<parent>/16-byte/next-to-log/arbitrary bytes/NUL at an end/too long, '
+         '0-8 (sometimes 20-80) points with values zero/-0/NaN/Inf/denormal/float32 overflow and underflow/half-way between float32 values/random '
+         'bits, times epoch/min/max int64 ns/pre-epoch/recent/zero time.Time, tombstones incl. int32 limits, unicode and 100-300 byte texts, binary '
+         'data fields); corrupt (300 x scale real packets x up to 250 error patterns: single bits, bit pairs at any distance, bursts of span 2-16, '
+         'and outside the stated classes bursts of span 17-48, 3-8 scattered bits and the difference to another valid packet; positions skewed to '
+         'header and CRC; the fixed K4 case p.g + 13-bit burst); raw (byte strings of length 0-21, log packets, truncated and extended packets into '
+         'the decoder); exh (thorough tier: every single bit, every bit pair and every burst of span <= 16 on 19-47 byte packets). A case is '
+         'non-trivial when it is a round trip with at least one point, a corrupt case with at least one pattern or an exhaustive case; distinct by '
+         'SHA-1 of the inputs',
+ 'trusted': ["model of SerialEncode/SerialDecode and of the CRC: coq/theories/Serial/Model.v (hand-written, tied by this run's correspondence: "
+             "packet bytes equal, every decode outcome equal, CRC equal to the library's)",
+             "the harness's field-by-field protobuf writer c17Payload (expected payload handed to the model; must equal proto.Marshal's bytes)",
+             "float32 rounding and time.Time.UnixNano are Go's (the expected point values are computed with them in the harness)"],
+ 'level_text': 'proof: C17_roundtrip (every sequence number, subject of <= 16 bytes without NUL at an end, payload of any size), C17_crc_linear, '
+               'C17_codeword, C17_detects / C17_detects_far_from_log (every CRC-checked packet shorter than 4095 bytes, every non-zero error of '
+               'weight 1 or 2 or burst of <= 16 bits: rejected) are Coq theorems about the executable model of the serial wrapper with a bit-exact '
+               'CRC-16/KERMIT; the model is run against the real SerialEncode/SerialDecode/ChecksumCCITT on > 2000 packets and > 70000 corrupted '
+               'packets per run and must agree on every byte and every outcome; point conversion is checked on the real PbDecodeSerialPoints',
+ 'level_note': 'trusted: Coq kernel (vm_compute for four sweeps over the 65536 register states and one over 32766 bit distances), extraction, OCaml '
+               'driver, the Go harness; modelled not verified: the protobuf payload is an opaque byte string in the theorems (protobuf layer: C12); '
+               'float32 rounding is Go\'s; detection holds unless the error turns the subject field into "log" (C17_log_adjacent_refuted, known '
+               'finding K4)',
+ 'assumptions': ['packets are shorter than 4095 bytes for the two-bit guarantee (x^k != 1 mod g only for k < 32767)',
+                 "an error pattern keeps the packet length (insertions and deletions are the framing layer's, C16)",
+                 'point times are representable as int64 nanoseconds, tombstones as int32, strings valid UTF-8 (what fits a packet)']}
+
+AREAS["C10"] = {'area': 'c10',
+ 'id': 10,
+ 'coq': ['Base', 'Codec', 'Properties/C10.v'],
+ 'rule': 'seeded generator over 8 flat Go struct types covering scalar / pointer / slice / array / string-keyed map / flat struct / '
+         'pointer-to-struct fields (bool, int, int8..int64, uint..uint64, float32, float64, string; point and edgepoint tags) and a 3-level struct '
+         'type with `child` slices: per scale unit 2400 round-trip values, 1200 before/after pairs and 400 trees; slice and map sizes skewed to '
+         '0,1,2,3-10,999,1000 (1001 in the boundary stream), integers skewed to 0, +-1 and the width / 2^53-1 limits, floats from a pool of special '
+         'values (+-0, +-Inf, subnormals, float32 rounding ties) and random bit patterns; pairs are produced by mutating the first value (shrink / '
+         'grow / edit slices, remove / add / change map entries, pointers nil<->set, struct members); map runs are handed to Decode / MergePoints in '
+         'shuffled order, children interleaved; about 8% of the cases come from a boundary stream that leaves the well-formed domain (NaN, > 2^53, > '
+         '1000 elements, map key ""); a round-trip case is non-trivial when its value encodes to at least 3 points, a pair when its difference has '
+         'at least one point, a tree when it has at least 2 nodes; distinct by SHA-1 of type and value(s)',
+ 'trusted': ['model of data.Encode / Decode / DiffPoints / MergePoints over the universe of field kinds: coq/theories/Codec/Model.v (hand-written, '
+             "tied by this run's correspondence: every Encode, Decode, DiffPoints and MergePoints result is compared with the model's, bit for bit, "
+             'also after an error)',
+             'float64<->integer and float64<->float32 conversions are functions on IEEE bit patterns in the model (amd64 semantics), exercised '
+             'against the hardware by the same correspondence; their exactness is proved (Codec/Conv.v), not assumed',
+             'the Go walker between struct values and universe values (harness/cmd/harness/c10.go, c10tree.go); nil and empty slices/maps are '
+             'identified, Go maps are read in sorted key order'],
+ 'level_text': 'proof: C10_roundtrip (decode (encode v) = v for every well-formed value of every configuration type of the universe, all seven field '
+               'kinds), C10_tree_roundtrip (the same for structs with child lists, any depth) and C10_diff_merge (merging the difference of two '
+               'values into the decoded first yields the second) are Coq theorems about the executable model, closed under the global context; the '
+               'model is run against data.Encode/Decode/DiffPoints/MergePoints on 4000 generated values, pairs and trees per run and must agree on '
+               'every output',
+ 'level_note': 'trusted: Coq kernel, extraction, OCaml driver, the Go harness and its walker; C10_diff_merge needs the difference of each map field '
+               'to fit into 1000 points (the code refuses more: known finding, C10_diff_merge_big_map_refuted); DiffPoints on structs with child '
+               'lists and merging into children are compared with the model but have no theorem',
+ 'assumptions': ['pointers in the before and after value of DiffPoints are distinct allocations (reflect.Value.Equal compares addresses)',
+                 'slices passed to Decode have no non-zero elements hidden between len and cap',
+                 "no negative zero in the values of a diff pair (Go's == cannot see a change of sign of zero)",
+                 'the difference of one map field holds at most 1000 points (known finding c10:diffmerge:map-diff-over-1000-points)',
+                 'struct member keys are taken from `point` tags or field names (DiffPoints ignores `edgepoint` tags of members)']}
+
+AREAS["C11"] = {'area': 'c11',
+ 'id': 11,
+ 'coq': ['Base', 'Codec', 'Properties/C11.v'],
+ 'rule': 'seeded generator: a prior value (zero or well-formed random) of one of the 8 flat configuration types of C10 or of the 3-level type with '
+         'child lists (1 case in 10), an operation (Decode / MergePoints / MergeEdgePoints, ids matching or not; on trees the id of any struct of '
+         'the tree) and a mostly-valid point batch (Encode of a random value, DiffPoints against the prior, or points written directly for declared '
+         'types) with 1-3 corruptions: weird keys (blank, negative, +5, 007, huge, non-numeric, non-ASCII digits), NaN / Inf / out-of-range / '
+         'fractional values, negative and huge tombstone counts, undeclared types, the same point live and tombstoned, tombstones past the end, '
+         'wrong namespace, shuffling; on trees also nodes of undeclared or other declared types, duplicated children, children below leaves, blank '
+         'ids; 1 in 8 cases is pure noise; every case is run twice (with and without the points / children of undeclared types); a case is '
+         'non-trivial when at least one point has a declared type; distinct by SHA-1 of the whole case',
+ 'trusted': ['model of data.Decode / GroupedPoints.SetValue / setVal / FindNodeInStruct / MergePoints / MergeEdgePoints: coq/theories/Codec/Model.v '
+             "(hand-written, tied by this run's correspondence: outcome class and resulting struct, also after an error)",
+             'panics are observed through recover() in the harness'],
+ 'level_text': 'proof: C11_total / C11_total_tree (decode_into, decode_tree, merge_points, merge_edge_points and their tree versions never reach '
+               'Panic, for every type, prior value and input) and C11_undeclared_ignored / _tree are Coq theorems about the executable model, in '
+               "which reflect's index panics are explicit; the model is run against data.Decode/MergePoints/MergeEdgePoints on 5000 malformed "
+               'batches per run and must agree on outcome class and resulting value',
+ 'level_note': 'trusted: Coq kernel, extraction, OCaml driver, the Go harness; the model places Panic where reflect.Value.Index would panic; other '
+               'reflect panics (Set on unsettable values, nil map writes) are excluded by construction of the destination (pointer to struct, maps '
+               'initialised by SetValue) and are covered by the run only; node ids are unique within a tree (FindNodeInStruct walks child fields in '
+               'Go map order)',
+ 'assumptions': ['the destination is a pointer to a struct of the universe of field kinds (docs/ref/data.md), child fields are slices of such '
+                 'structs',
+                 'slices passed to Decode have no non-zero elements hidden between len and cap']}
+
 WIP = "not yet built in this round; the design (DESIGN.md section 6) claims it and the check is being added"
 NOT_CLAIMED = {pid: WIP for pid in ["C%02d" % i for i in range(1, 21)] if pid not in AREAS}
 HOOK_COMMITS = ["6f869d9", "e935e32"]
